@@ -981,6 +981,78 @@ pub fn drand(g: &mut Gen, r: &mut Rng, cases: usize, max_keys: usize) {
 }
 
 // ------------------------------------------------------------------------------------------------
+// D-pad: pairs of trees whose contents differ in ONE key replaced by a CONFUSABLE key of the same
+// level and value: the key with trailing 0x00 / 0xff bytes added or removed, the empty key, a key
+// extended by the first bytes of its value digest. Anything in the page hash (or in a key
+// comparison) that pads, truncates or length-limits short keys makes such trees hash equal.
+// ------------------------------------------------------------------------------------------------
+
+pub fn dpad(g: &mut Gen, r: &mut Rng, cases: usize) {
+    const ALPHA: [u8; 5] = [0x00, 0x01, 0x61, 0x80, 0xff];
+    for case in 0..cases {
+        let mut r = r.fork(0x9ad0 + case as u64);
+        set_val_pos(r.below(3) as u8);
+        let n = [3usize, 16, 20][r.below(3) as usize];
+        let base = 16u8;
+        let nk = 1 + r.below(6) as usize;
+        let mut keys: BTreeSet<Vec<u8>> = BTreeSet::new();
+        while keys.len() < nk {
+            let len = [0usize, 1, 2, 3, 7, 8, 9, 15, 16, 17][r.below(10) as usize];
+            keys.insert((0..len).map(|_| ALPHA[r.below(5) as usize]).collect());
+        }
+        let keys: Vec<Vec<u8>> = keys.into_iter().collect();
+        let lv: Vec<u32> = (0..nk).map(|_| r.below(3) as u32).collect();
+        let victim = r.below(nk as u64) as usize;
+        let vd = val_digest(1, n);
+        // the confusable twin of the victim key
+        let mut twin = keys[victim].clone();
+        let kind = r.below(6);
+        match kind {
+            0 => twin.push(0x00),
+            1 => twin.extend([0x00, 0x00, 0x00]),
+            2 => {
+                while twin.last() == Some(&0) {
+                    twin.pop();
+                }
+                if twin == keys[victim] {
+                    twin.push(0x00)
+                }
+            }
+            3 => twin.push(0xff),
+            4 => twin.extend(&vd[..1 + r.below(2.min(n as u64 - 1)) as usize]),
+            _ => {
+                let pad = 8usize.saturating_sub(twin.len()).max(1);
+                twin.extend(std::iter::repeat(0).take(pad));
+            }
+        }
+        if keys.contains(&twin) {
+            continue;
+        }
+        g.note(&format!("dpad-kind{kind}"));
+        g.cases += 1;
+        g.op(format!("new 0 {base} n={n}"));
+        g.op(format!("new 1 {base} n={n}"));
+        for (i, k) in keys.iter().enumerate() {
+            let kd = digest_for_level(lv[i], base, n, 0x20);
+            g.op(format!("ups 0 {} {} {}", xtok(k), xtok(&kd), xtok(&vd)));
+            let kb = if i == victim { &twin } else { k };
+            g.op(format!("ups 1 {} {} {}", xtok(kb), xtok(&kd), xtok(&vd)));
+        }
+        g.op("hash 0".into());
+        g.op("hash 1".into());
+        g.op("ser 0".into());
+        g.op("ser 1".into());
+        let out = g.op("diff2 0 1".into());
+        g.shapes.insert(fnv(&out) ^ case as u64);
+        // both keys in ONE tree: they must stay two entries
+        g.op(format!("ups 0 {} {} {}", xtok(&twin), xtok(&digest_for_level(lv[victim], base, n, 0x20)), xtok(&vd)));
+        g.op("hash 0".into());
+        g.op("iter 0".into());
+        g.op("diff2 0 1".into());
+    }
+}
+
+// ------------------------------------------------------------------------------------------------
 // D-wide: diffs of WIDE trees: a root (or mid-level) page with 130..400 children, so that one diff
 // records hundreds of consistent / inconsistent ranges; few edits at chosen positions
 // ------------------------------------------------------------------------------------------------
